@@ -787,76 +787,81 @@ def lines_cdedb_read(cases, workdir, stream):
             if c["corruption"] in refusals:
                 out.append(line("direct", ["C12", "C15"], ok=False, what=f"export with corruption '{c['corruption']}' was accepted", case=i, stream=stream))
         if c["corruption"] is None:
-            exp = problem_of(c["doc"], c["opts"])
-            if exp is not None:
-                kept, parts = exp
-                got_courses = [x[0] for x in ok["courses"]]
-                got_parts = [(p[0], [(got_courses[ch[0]], ch[1]) for ch in p[2]]) for p in ok["parts"]]
-                exp_parts = [(rid, ch) for rid, ch, _ in parts]
-                good = got_courses == kept and got_parts == exp_parts
-                # every stored instructor index points at the registration instructing that course
-                for ci, cc in enumerate(ok["courses"]):
-                    want = [k for k, (_, _, ins) in enumerate(parts) if ins == kept[ci]] if ci < len(kept) else None
-                    if cc[4] != want:
-                        good = False
-                if c["opts"]["ia"]:
-                    # C11, declaratively: places of ignored pre-assigned registrations are reserved
+            try:
+                exp = problem_of(c["doc"], c["opts"])
+                if exp is not None:
+                    kept, parts = exp
+                    got_courses = [x[0] for x in ok["courses"]]
+                    # (an index the reader's own course list does not have is shown as such, not looked up)
+                    got_parts = [(p[0], [((got_courses[ch[0]] if 0 <= ch[0] < len(got_courses) else f"index {ch[0]} out of range"), ch[1]) for ch in p[2]]) for p in ok["parts"]]
+                    exp_parts = [(rid, ch) for rid, ch, _ in parts]
+                    good = got_courses == kept and got_parts == exp_parts
+                    # every stored instructor index points at the registration instructing that course
+                    for ci, cc in enumerate(ok["courses"]):
+                        want = [k for k, (_, _, ins) in enumerate(parts) if ins == kept[ci]] if ci < len(kept) else None
+                        if cc[4] != want:
+                            good = False
+                    if c["opts"]["ia"]:
+                        # C11, declaratively: places of ignored pre-assigned registrations are reserved
+                        t = str(c["info"]["sel_track"]); sp = str(c["info"]["sel_part"])
+                        probs = []
+                        for ci, cid in enumerate(kept):
+                            cd = next(v for k, v in c["doc"]["courses"].items() if int(k) == cid)
+                            mx = cd.get("max_size") if isinstance(cd.get("max_size"), int) else 25
+                            mn = cd.get("min_size") if isinstance(cd.get("min_size"), int) else 0
+                            att = ins = 0
+                            for rid, reg in c["doc"]["registrations"].items():
+                                pp = reg["parts"].get(sp)
+                                if not isinstance(pp, dict) or pp.get("status") != 2:
+                                    continue
+                                rt = reg["tracks"][t]
+                                if rt["course_id"] == cid:
+                                    if rt["course_instructor"] == cid:
+                                        ins += 1
+                                    else:
+                                        att += 1
+                            want = [max(0, mn - att), max(0, mx - att), (att + ins) != 0, att + ins]
+                            if ci >= len(ok["courses"]):
+                                probs.append(f"course {cid}: missing from the reader's result")
+                                continue
+                            got = [ok["courses"][ci][2], ok["courses"][ci][3], ok["courses"][ci][7], len(ok["courses"][ci][8])]
+                            if want != got:
+                                probs.append(f"course {cid}: expected [min,max,fixed,#hidden] {want}, reader {got}")
+                        out.append(line("direct", ["C11"], ok=not probs, what="; ".join(probs[:3]) or "places of ignored registrations reserved", case=i, stream=stream,
+                                        nontrivial=any(len(x[8]) > 0 for x in ok["courses"])))
+                    # size limits (defaults 0 and 25) and the configured room fields, read off the export independently;
+                    # with --ignore-assigned the places and the room share of the hidden people are accounted for
                     t = str(c["info"]["sel_track"]); sp = str(c["info"]["sel_part"])
-                    probs = []
+                    fprobs = []
                     for ci, cid in enumerate(kept):
+                        if ci >= len(ok["courses"]):
+                            break
                         cd = next(v for k, v in c["doc"]["courses"].items() if int(k) == cid)
+                        hidden = 0; att = 0
+                        if c["opts"]["ia"]:
+                            for rid, reg in c["doc"]["registrations"].items():
+                                pp = reg["parts"].get(sp)
+                                if isinstance(pp, dict) and pp.get("status") == 2 and reg["tracks"][t]["course_id"] == cid:
+                                    hidden += 1
+                                    att += reg["tracks"][t]["course_instructor"] != cid
                         mx = cd.get("max_size") if isinstance(cd.get("max_size"), int) else 25
                         mn = cd.get("min_size") if isinstance(cd.get("min_size"), int) else 0
-                        att = ins = 0
-                        for rid, reg in c["doc"]["registrations"].items():
-                            pp = reg["parts"].get(sp)
-                            if not isinstance(pp, dict) or pp.get("status") != 2:
-                                continue
-                            rt = reg["tracks"][t]
-                            if rt["course_id"] == cid:
-                                if rt["course_instructor"] == cid:
-                                    ins += 1
-                                else:
-                                    att += 1
-                        want = [max(0, mn - att), max(0, mx - att), (att + ins) != 0, att + ins]
-                        if ci >= len(ok["courses"]):
-                            probs.append(f"course {cid}: missing from the reader's result")
-                            continue
-                        got = [ok["courses"][ci][2], ok["courses"][ci][3], ok["courses"][ci][7], len(ok["courses"][ci][8])]
-                        if want != got:
-                            probs.append(f"course {cid}: expected [min,max,fixed,#hidden] {want}, reader {got}")
-                    out.append(line("direct", ["C11"], ok=not probs, what="; ".join(probs[:3]) or "places of ignored registrations reserved", case=i, stream=stream,
-                                    nontrivial=any(len(x[8]) > 0 for x in ok["courses"])))
-                # size limits (defaults 0 and 25) and the configured room fields, read off the export independently;
-                # with --ignore-assigned the places and the room share of the hidden people are accounted for
-                t = str(c["info"]["sel_track"]); sp = str(c["info"]["sel_part"])
-                fprobs = []
-                for ci, cid in enumerate(kept):
-                    if ci >= len(ok["courses"]):
-                        break
-                    cd = next(v for k, v in c["doc"]["courses"].items() if int(k) == cid)
-                    hidden = 0; att = 0
-                    if c["opts"]["ia"]:
-                        for rid, reg in c["doc"]["registrations"].items():
-                            pp = reg["parts"].get(sp)
-                            if isinstance(pp, dict) and pp.get("status") == 2 and reg["tracks"][t]["course_id"] == cid:
-                                hidden += 1
-                                att += reg["tracks"][t]["course_instructor"] != cid
-                    mx = cd.get("max_size") if isinstance(cd.get("max_size"), int) else 25
-                    mn = cd.get("min_size") if isinstance(cd.get("min_size"), int) else 0
 
-                    def fld(name, dflt):
-                        v = cd.get("fields", {}).get(name) if name is not None else None
-                        return float(v) if isinstance(v, (int, float)) and not isinstance(v, bool) else dflt
-                    fac = f32round(fld(c["opts"]["rff"], 1.0))
-                    off = f32round(f32round(fld(c["opts"]["rof"], 0.0)) + f32round(float(hidden) * fac))
-                    want = [max(0, mn - att), max(0, mx - att), f32bits(fac), f32bits(off)]
-                    got = [ok["courses"][ci][2], ok["courses"][ci][3], ok["courses"][ci][5], ok["courses"][ci][6]]
-                    if want != got:
-                        fprobs.append(f"course {cid}: expected [min,max,factor bits,offset bits] {want} (factor {fac}, offset {off}), reader {got}")
-                out.append(line("direct", ["C12"] + (["C11"] if c["opts"]["ia"] else []), ok=not fprobs,
-                                what="; ".join(fprobs[:3]) or "size limits and room factor / offset as the export gives them", case=i, stream=stream))
-                out.append(line("direct", ["C12"], ok=good, what=f"declarative problem: courses {kept} participants {exp_parts[:6]} vs reader courses {got_courses} participants {got_parts[:6]}", case=i, stream=stream))
+                        def fld(name, dflt):
+                            v = cd.get("fields", {}).get(name) if name is not None else None
+                            return float(v) if isinstance(v, (int, float)) and not isinstance(v, bool) else dflt
+                        fac = f32round(fld(c["opts"]["rff"], 1.0))
+                        off = f32round(f32round(fld(c["opts"]["rof"], 0.0)) + f32round(float(hidden) * fac))
+                        want = [max(0, mn - att), max(0, mx - att), f32bits(fac), f32bits(off)]
+                        got = [ok["courses"][ci][2], ok["courses"][ci][3], ok["courses"][ci][5], ok["courses"][ci][6]]
+                        if want != got:
+                            fprobs.append(f"course {cid}: expected [min,max,factor bits,offset bits] {want} (factor {fac}, offset {off}), reader {got}")
+                    out.append(line("direct", ["C12"] + (["C11"] if c["opts"]["ia"] else []), ok=not fprobs,
+                                    what="; ".join(fprobs[:3]) or "size limits and room factor / offset as the export gives them", case=i, stream=stream))
+                    out.append(line("direct", ["C12"], ok=good, what=f"declarative problem: courses {kept} participants {exp_parts[:6]} vs reader courses {got_courses} participants {got_parts[:6]}", case=i, stream=stream))
+            except Exception as e:
+                # a result the oracle cannot even interpret is a finding about the reader, not a crash of the check
+                out.append(line("direct", ["C12"], ok=False, what=f"the reader's result cannot be interpreted ({type(e).__name__}: {e})", case=i, stream=stream))
     return out
 
 
